@@ -3,10 +3,21 @@
 import fcntl, hashlib, json, os, re, shutil, subprocess, sys, tempfile, time
 
 VERIF = os.path.dirname(os.path.dirname(os.path.abspath(__file__)))
-REPO = os.environ.get("VERIF_REPO", "/repo")
-COQ = os.path.join(VERIF, "coq")
+REPO = os.path.realpath(os.environ.get("VERIF_REPO", "/repo"))
 HARNESS = os.path.join(VERIF, "harness")
-BUILD = os.path.join(VERIF, ".build")
+ALT = REPO != "/repo"
+if ALT:
+    # isolated mode for trying a modified copy of relic (a scratch worktree): own Coq tree, build dir and outputs, so that
+    # concurrent work on /verif and /repo is not disturbed. Registered checks never use this mode.
+    _alt = os.path.join("/var/tmp/verif-alt", hashlib.md5(REPO.encode()).hexdigest()[:10])
+    COQ = os.path.join(_alt, "coq")
+    BUILD = os.path.join(_alt, "build")
+    OUT = os.path.join(_alt, "out")
+else:
+    COQ = os.path.join(VERIF, "coq")
+    BUILD = os.path.join(VERIF, ".build")
+    OUT = VERIF
+MODFLAGS = []
 GOENV = dict(os.environ, GOFLAGS="-mod=mod", GOPROXY="off", GOSUMDB="off", GOTOOLCHAIN="local",
              CGO_ENABLED=os.environ.get("CGO_ENABLED", "1"))
 GOENV.setdefault("GOCACHE", os.path.join(BUILD, "gocache"))
@@ -41,10 +52,26 @@ def run(cmd, cwd=None, env=None, timeout=None, input=None):
         return 124, out, err + "\nTIMEOUT", time.time() - t0
 
 
+def _alt_setup():
+    global MODFLAGS
+    os.makedirs(BUILD, exist_ok=True)
+    os.makedirs(OUT, exist_ok=True)
+    run(["rsync", "-a", "--delete", "--exclude", "Generated/*.v", "--exclude", "Generated/*.vo", "--exclude", "Generated/*.glob",
+         os.path.join(VERIF, "coq") + "/", COQ + "/"])
+    os.makedirs(os.path.join(COQ, "Generated"), exist_ok=True)
+    mod = open(os.path.join(HARNESS, "go.mod")).read().replace("=> /repo", "=> " + REPO)
+    alt = os.path.join(BUILD, "alt.mod")
+    open(alt, "w").write(mod)
+    shutil.copyfile(os.path.join(REPO, "go.sum"), os.path.join(BUILD, "alt.sum"))
+    MODFLAGS = ["-modfile=" + alt]
+
+
 class Ctx:
     def __init__(self, pid, tier, seed):
         self.pid, self.tier, self.seed = pid, tier, seed
         self.t0 = time.time()
+        if ALT:
+            _alt_setup()
         self.scratch = tempfile.mkdtemp(prefix="verif.%s." % pid, dir="/var/tmp")
         self.violations = []      # (replay_path, note, found_input)
         self.known_hits = []
@@ -60,7 +87,7 @@ class Ctx:
     def srcgen(self):
         with Lock("build"):
             os.makedirs(BUILD, exist_ok=True)
-            rc, out, err, _ = run(["go", "build", "-o", os.path.join(BUILD, "srcgen"), "./cmd/srcgen"], cwd=HARNESS, env=GOENV, timeout=600)
+            rc, out, err, _ = run(["go", "build"] + MODFLAGS + ["-o", os.path.join(BUILD, "srcgen"), "./cmd/srcgen"], cwd=HARNESS, env=GOENV, timeout=600)
             if rc != 0:
                 raise SystemExit("srcgen build failed:\n" + err)
             summ = os.path.join(self.scratch, "srcgen.json")
@@ -199,9 +226,9 @@ class Ctx:
     # ------------------------------------------------------------ Go driver
     def build_drv(self):
         with Lock("build"):
-            gosum = os.path.join(HARNESS, "go.sum")
-            shutil.copyfile(os.path.join(REPO, "go.sum"), gosum)
-            rc, out, err, dt = run(["go", "build", "-tags", "verif", "-o", self.drv_path(), "./cmd/drv-" + self.pid.lower()], cwd=HARNESS, env=GOENV, timeout=1200)
+            if not ALT:
+                shutil.copyfile(os.path.join(REPO, "go.sum"), os.path.join(HARNESS, "go.sum"))
+            rc, out, err, dt = run(["go", "build"] + MODFLAGS + ["-tags", "verif", "-o", self.drv_path(), "./cmd/drv-" + self.pid.lower()], cwd=HARNESS, env=GOENV, timeout=1200)
         if rc != 0:
             return False, err
         return True, ""
@@ -291,9 +318,9 @@ class Ctx:
                 if key not in [h[0] for h in self.known_hits]:
                     self.known_hits.append((key, k.get("what", detail)))
                 return False
-        os.makedirs(os.path.join(VERIF, "replay", self.pid), exist_ok=True)
+        os.makedirs(os.path.join(OUT, "replay", self.pid), exist_ok=True)
         h = hashlib.sha256(json.dumps(replay_obj, sort_keys=True, default=str).encode()).hexdigest()[:12]
-        path = os.path.join(VERIF, "replay", self.pid, "%s.json" % h)
+        path = os.path.join(OUT, "replay", self.pid, "%s.json" % h)
         replay_obj = dict(replay_obj, property=self.pid, key=key, detail=detail, found_input=found_input, seed=self.seed, tier=self.tier)
         json.dump(replay_obj, open(path, "w"), indent=1, default=str)
         self.violations.append((path, detail, found_input, key))
@@ -306,10 +333,10 @@ class Ctx:
               "violations": len(self.violations)}
         ev["coverage"]["known_findings_reproduced"] = [k for k, _ in self.known_hits]
         ev["coverage"]["notes"] = self.notes
-        os.makedirs(os.path.join(VERIF, "evidence"), exist_ok=True)
-        tmp = os.path.join(VERIF, "evidence", ".%s.json.tmp" % self.pid)
+        os.makedirs(os.path.join(OUT, "evidence"), exist_ok=True)
+        tmp = os.path.join(OUT, "evidence", ".%s.json.tmp" % self.pid)
         json.dump(ev, open(tmp, "w"), indent=1, default=str)
-        os.replace(tmp, os.path.join(VERIF, "evidence", "%s.json" % self.pid))
+        os.replace(tmp, os.path.join(OUT, "evidence", "%s.json" % self.pid))
         for key, what in self.known_hits:
             print("KNOWN-FINDING: property=%s %s (%s)" % (self.pid, key, what))
         seen = set()
